@@ -175,16 +175,18 @@ pub fn run(ctx: &Ctx) -> CheckResult {
         let cls = format!("{}:{}:{:?}", t.cmd, t.game, t.mode);
         let first_of_class = class_seen.insert(cls);
         let big = t.bytes.len() > 4096;
+        let structural = corrupt::structural_offsets(&t.bytes, if quick { 160 } else { 512 });
+        let is_struct = |off: usize| structural.get(off).copied().unwrap_or(false);
         let mut sel = if quick {
             if t.bundled {
-                corrupt::select(&all, 160, 16, if big { 6000 } else { 64 }, seed)
+                corrupt::select_by(&all, &is_struct, 16, if big { 6000 } else { 64 }, seed)
             } else if first_of_class || t.name.contains("extra/") {
                 corrupt::select(&all, 128, 32, 128, seed)
             } else {
                 vec![]
             }
         } else if t.bundled {
-            corrupt::select(&all, 512, 1, if big { 400 } else { 1 }, seed)
+            corrupt::select_by(&all, &is_struct, 1, if big { 400 } else { 1 }, seed)
         } else if first_of_class || t.name.contains("extra/") {
             corrupt::select(&all, 256, 2, if big { 100 } else { 4 }, seed)
         } else {
